@@ -38,6 +38,15 @@ extern "C" void harness() {
     int binom = 1; for (int i = 0; i <= fd; i++) binom = binom * (dim + 1 - i) / (i + 1);
     vp_assert(nf == binom, "the k-faces are exactly the (dim+1 choose k+1) vertex subsets"); }
   if (dim >= 1) { int nfc = 0; for (auto f : s.facet_range()) { nfc++; vp_assert((int)f.dimension() == dim - 1 && subset(verts_of(f), verts), "facet_range"); } vp_assert(nfc == dim + 1, "number of facets"); }
+  // completeness of the coface enumeration: the cd-cofaces of s are the refinements of its ordered partition into cd+1 parts, i.e.
+  // sum over (k_0..k_dim), k_i >= 1, sum k_i = cd+1, of prod_i k_i! * S(|part_i|, k_i)  (S = Stirling numbers of the second kind); listed once each
+  long surj[8][8]; for (int a = 0; a < 8; a++) for (int b = 0; b < 8; b++) surj[a][b] = 0; surj[0][0] = 1;
+  for (int a = 1; a < 8; a++) for (int b = 1; b <= a; b++) surj[a][b] = b * (surj[a - 1][b] + surj[a - 1][b - 1]);   // surj[a][b] = b! * S(a,b): ordered partitions of a elements into b blocks
+  for (int cd = dim; cd <= d; cd++) { long ways[8][8]; for (int i = 0; i < 8; i++) for (int t = 0; t < 8; t++) ways[i][t] = 0; ways[0][0] = 1;
+    for (int i = 0; i <= dim; i++) { int a = (int)s.partition()[i].size(); for (int t = 0; t <= cd + 1; t++) if (ways[i][t]) for (int kk = 1; kk <= a && t + kk <= cd + 1; kk++) ways[i + 1][t + kk] += ways[i][t] * surj[a][kk]; }
+    long expect = ways[dim + 1][cd + 1], got = 0; std::vector<std::vector<Vtx> > seenc;
+    for (auto c : s.coface_range(cd)) { auto cv = verts_of(c); for (auto& o : seenc) vp_assert(!(subset(o, cv) && subset(cv, o)), "cofaces are listed once"); seenc.push_back(cv); got++; }
+    vp_assert(got == expect, "coface_range lists every coface (all refinements of the ordered partition)"); }
   for (int cd = dim; cd <= d; cd++) { for (auto c : s.coface_range(cd)) { vp_assert((int)c.dimension() == cd, "coface has the requested dimension"); auto cv = verts_of(c); vp_assert(subset(verts, cv), "every enumerated coface contains the simplex");
       vp_assert(s.is_face_of(c), "the simplex is recognised as a face of each coface");
       bool listed = false; for (auto f : c.face_range(dim)) { auto fv = verts_of(f); if (subset(fv, verts) && subset(verts, fv)) listed = true; } vp_assert(listed, "a simplex is a coface of another exactly when the other is listed among its faces"); } }
